@@ -58,8 +58,20 @@ def cfg_model(cs_, props, invs="TypeOK TasksUnderIdentity RosterOfThisLife"):
     return "SPECIFICATION Spec\nCONSTANTS\n%s\nINVARIANTS %s\nPROPERTIES %s\nCHECK_DEADLOCK FALSE\n" % (cs_, invs, props)
 
 
-def cfg_gen(cs_, starts="{6, 9, 12, 14, 16, 18, 20, 23, 26, 30, 34}", gaps="{3, 8, 13, 18, 24}", extra=""):
-    return "SPECIFICATION GenSpec\nCONSTANTS\n%s\n  FaultStarts = %s\n  FaultGaps = %s\n%sCHECK_DEADLOCK FALSE\n" % (cs_, starts, gaps, extra)
+# Core options the property must be indifferent to: the identity is kept and leftovers are killed whatever the agent
+# checkpointing flag, the (positive) failover timeout, the framework capabilities. The generator draws one per scenario;
+# every core of the scenario (all its lives) is started with them. (A failover timeout of 0 is not among them: Mesos then
+# removes the framework and its tasks when the scheduler disconnects, and the scheduler library subscribes without an id.)
+CORE_OPTS = [[],
+             ["--mesosCheckpoint=false"],
+             ["--mesosFailoverTimeout=2h"],
+             ["--mesosCheckpoint=false", "--mesosFailoverTimeout=45m", "--mesosGpuClusterCompat=true"]]
+
+
+def cfg_gen(cs_, starts="{6, 9, 12, 14, 16, 18, 20, 23, 26, 30, 34}", gaps="{3, 8, 13, 18, 24}", extra="", opts=None):
+    opts = list(range(len(CORE_OPTS))) if opts is None else opts
+    return ("SPECIFICATION GenSpec\nCONSTANTS\n%s\n  FaultStarts = %s\n  FaultGaps = %s\n  CoreOpts = {%s}\n%sCHECK_DEADLOCK FALSE\n"
+            % (cs_, starts, gaps, ", ".join(str(o) for o in opts), extra))
 
 
 def cfg_trace(dv):
@@ -584,9 +596,13 @@ class Conv:
         self.points = fault_points(self.acts)
         if not self.points:
             raise Undrivable("no fault in the behaviour")
+        flags = CORE_OPTS[int(self.acts[0]["st"].get("opt", 0)) % len(CORE_OPTS)]
+        core = {"flags": list(flags)} if flags else {}
+        if self.child:
+            core["child"] = True
         return {"id": self.sid, "family": "C18", "agents": cs.DEFAULT_AGENTS, "files": self.files,
-                "core": {"child": True} if self.child else {}, "scripts": [], "hooks": {}, "steps": self.steps, "isolated": True,
-                "model": {"child": self.child, "points": self.points, "origin": self.origin,
+                "core": core, "scripts": [], "hooks": {}, "steps": self.steps, "isolated": True,
+                "model": {"child": self.child, "points": self.points, "origin": self.origin, "core_flags": list(flags),
                           "behaviour": ["%s(%s)" % (a["act"], a["arg"]) if a["arg"] else a["act"] for a in self.acts[1:]]}}
 
 
@@ -835,6 +851,8 @@ def run(ctx):
         "'accepted and lost' = the simulated master answers 202 and forgets the call, 'refused' = it answers 503 while another "
         "call of the core is out; NoOrphans is claimed under the assumption that a scheduler whose calls get lost is eventually "
         "disconnected (the core does not reconcile periodically)",
+        "core options the property must be indifferent to are drawn per scenario (CORE_OPTS: --mesosCheckpoint=false, other positive "
+        "--mesosFailoverTimeout values, --mesosGpuClusterCompat); a failover timeout of 0 is outside the property",
         "the window between the read and the write-back of the roster in doKillTasks is replayed only on a tree that has the "
         "hook point task.roster.update (work/patches/C18-hooks.patch)",
     ]
@@ -876,7 +894,8 @@ def run(ctx):
             # searched among the schedules the simulation can impose (RestartGen), so that it can be replayed
             r = ctx.model_check("RestartGen", "as-found:" + prop, workers=1, timeout=600,  # one worker: the same shortest counterexample every time
                                 cfg_text=cfg_gen(consts(["k1", "k2"], ["e1", "e2"] if prop == "NoFriendlyFireForgotten" else ["e1"],
-                                                        0, 1, dv, 0), "{0}", "{1}", "PROPERTIES %s\nCONSTRAINT TickBound\n" % prop))
+                                                        0, 1, dv, 0), "{0}", "{1}", "PROPERTIES %s\nCONSTRAINT TickBound\n" % prop,
+                                                 opts=[0]))
             if prop not in r.violated:
                 raise vlib.Inconclusive("deviation %s is open but the model does not break %s" % (DEVS[c], prop))
             cex.append((prop, norm(r.counterexample())))
@@ -907,10 +926,12 @@ def run(ctx):
             raise vlib.Inconclusive("cannot drive the counterexample of %s" % prop)
         scenarios.append(s)
     # scenario shapes every run must contain, whatever the simulation draws: shortest behaviours of RestartGen reaching them
-    for probe in PROBES:
+    for k, probe in enumerate(PROBES):
+        # (each shape under another set of core options, the non-default ones first, rotating with the seed)
         r = ctx.model_check("RestartGen", "shape:" + probe, workers=1, timeout=600,
                             cfg_text=cfg_gen(consts(["k1", "k2"], ["e1", "e2"], 1, 1, dv, 1), "{0}", "{1}",
-                                             "INVARIANT %s\nCONSTRAINT TickBound\n" % probe))
+                                             "INVARIANT %s\nCONSTRAINT TickBound\n" % probe,
+                                             opts=[(1 + k + ctx.seed) % len(CORE_OPTS)]))
         if probe not in r.violated:
             raise vlib.Inconclusive("the generator does not reach the scenario shape %s" % probe)
         s = try_conv(norm(r.counterexample()), "shape:" + probe)
